@@ -169,6 +169,10 @@ func (g *Gen) transIdent(x *Expr, env *Env) TV {
 			return tv
 		}
 	}
+	if x.Name == "world" {
+		// the object carrying global ghost state
+		return TV{"1", SInt, nil}
+	}
 	if v, ok := g.S.Consts[x.Name]; ok {
 		return TV{intLit(v), SInt, types.Typ[types.Int]}
 	}
@@ -428,6 +432,26 @@ func (g *Gen) transCall(x *Expr, env *Env) TV {
 	case "fmtany":
 		a := g.trans(x.Args[0], env)
 		return TV{"(fmt.any " + a.T + ")", SStr, types.Typ[types.String]}
+	case "ownerof":
+		// ownerof(x, "pkg.Type", "field"): the object whose embedded struct field `field` is x
+		a := g.trans(x.Args[0], env)
+		t := g.P.lookupType(x.Args[1].Str)
+		if t == nil {
+			panic(specErr(x, "unknown type %s", x.Args[1].Str))
+		}
+		s, ok := t.Underlying().(*types.Struct)
+		if !ok {
+			panic(specErr(x, "ownerof needs a struct type"))
+		}
+		for i := 0; i < s.NumFields(); i++ {
+			if s.Field(i).Name() == x.Args[2].Str {
+				fn := sym("fld." + typeKey(t) + "." + x.Args[2].Str)
+				g.declare(fn, "(Int) Int")
+				g.declare(fn+".inv", "(Int) Int")
+				return TV{"(" + fn + ".inv " + a.T + ")", SInt, types.NewPointer(t)}
+			}
+		}
+		panic(specErr(x, "no such field"))
 	case "subobj":
 		// subobj(x, "field"): reference of an embedded struct field (e.g. a mutex)
 		a := g.trans(x.Args[0], env)
